@@ -19,11 +19,12 @@ import math
 import os
 import sys
 import types
-from copy import copy
+import copy
 from types import SimpleNamespace
 
 import numpy as np
 
+import autofit as af
 from common import f2h, h2f
 
 KINDS = ("nautilus", "ultranest", "zeus")
@@ -466,10 +467,73 @@ def synth_xform(ctx, prog, model, analysis, arrays=None):
     return 0
 
 
+# ---------------------------------------------------------------------------------------------
+# resumed fits: a fit that died part-way (the likelihood raises after N calls) is run again by a fresh search
+# object of the same name; what it returns went partly through the state loaded from disk
+
+
+class Crash(Exception):
+    pass
+
+
+class CrashingAnalysis(af.Analysis):
+    """the likelihood of `inner`; raises after `limit` calls (a job killed part-way)"""
+
+    def __init__(self, inner, limit):
+        self.inner = inner
+        self.limit = limit
+        self.calls = 0
+        self.seen = set()
+
+    def log_likelihood_function(self, instance):
+        self.calls += 1
+        if self.calls > self.limit:
+            raise Crash("the job was killed")
+        self.seen.add(tuple(v for _, v in C.leaves(instance)))
+        return self.inner.log_likelihood_function(instance)
+
+
+# (in this environment only BFGS / LBFGS carry state over a kill: dynesty writes its checkpoint every 60 s of wall time, and
+# an Emcee fit that is updated every few steps stops at `thin = 0`; these cases check that a fit started again after a kill
+# returns faithful samples, they add no modelled behaviour - thorough tier only)
+RESUME_FITS = [
+    ("LBFGS", {"named": True, "history": True, "ipu": 2, "maxiter": 10, "crash_after": 45}),
+    ("BFGS", {"named": True, "history": True, "ipu": 2, "maxiter": 8, "crash_after": 15}),
+    ("LBFGS", {"named": True, "ipu": 2, "maxiter": 8, "crash_after": 30}),
+    ("DynestyStatic", {"named": True, "x1": True, "ipu": 40, "crash_after": 130}),
+]
+
+
+def crash_then_resume(ctx, kind, search, model, analysis, settings):
+    """-> (result, the search object that produced it)"""
+    fresh = copy.deepcopy(search)  # taken before any fit: the script is started again
+    crashing = CrashingAnalysis(analysis, int(settings["crash_after"]))
+    try:
+        result = search.fit(model=model, analysis=crashing)
+    except Crash:
+        ctx.hit(f"resume:{kind}:first-fit-killed")
+    else:
+        ctx.hit(f"resume:{kind}:first-fit-ended-before-the-kill")
+        return result, search
+    counting = CrashingAnalysis(analysis, 10 ** 12)
+    result = fresh.fit(model=model, analysis=counting)
+    keys = [tuple(p) for p in model.unique_prior_paths]
+    old = 0
+    for smp in result.samples.sample_list:
+        try:
+            inst = model.instance_from_vector([float(smp.kwargs[k]) for k in keys], ignore_prior_limits=True)
+            old += tuple(v for _, v in C.leaves(inst)) in crashing.seen
+        except Exception:
+            pass
+    # evidence that state from before the kill is in the result (the pairing of those samples is what is checked)
+    ctx.hit(f"resume:{kind}:samples-evaluated-before-the-kill:{'none' if old == 0 else 'some'}")
+    return result, fresh
+
+
 def run_more(ctx):
     """the cases of this module (called from c05.run after the conversion loop)"""
     rng = ctx.rng
-    n = ctx.n(120, 1200)
+    n = ctx.n(120, 800)
     kinds = list(KINDS) + ["xform"]
     for k in range(n):
         kind = kinds[k % len(kinds)]
